@@ -35,7 +35,8 @@ def gen_abstract(rng):
     return dict(version=ver, pattern=vp, commit_message=rng.choice(["absent"] + MESSAGES), tag_message=rng.choice(["absent", "absent"] + MESSAGES),
                 tag_scope=rng.choice(["absent", "default", "global", "branch"]), pre=rng.choice(["absent", "absent", "hooks/pre.sh"]), post=rng.choice(["absent", "absent", "hooks/post.sh"]),
                 commit=commit, tag=tag, push=push, entries=entries, self_explicit=rng.random() < 0.3,
-                self_extra=rng.choice([[], [], ["rel {version}"], ["rel {version}", "badge-{version}-x"]]))
+                self_extra=rng.choice([[], [], ["rel {version}"], ["rel {version}", "badge-{version}-x"]]),
+                self_glob=rng.random() < 0.15)       # a glob entry (*.toml / *.cfg) that covers the config file, which is not listed literally
 
 
 def write_config(A, fname, section, syntax, rng):
@@ -62,6 +63,8 @@ def write_config(A, fname, section, syntax, rng):
         ents = list(A["entries"])
         if A["self_explicit"]:
             ents.append([fname, [lines[1].replace(A["version"], "{version}")] + A["self_extra"]])        # spelled like the line it has to match, plus further patterns
+        elif A.get("self_glob"):
+            ents.append(["*.cfg", ["rel {version}"]])
         for path, pats in ents:
             lines.append("%s =" % path)
             for k, p in enumerate(pats):
@@ -88,6 +91,8 @@ def write_config(A, fname, section, syntax, rng):
         ents = list(A["entries"])
         if A["self_explicit"]:
             ents.append([fname, ['current_version = "{version}"'] + A["self_extra"]])
+        elif A.get("self_glob") and not fname.startswith("."):
+            ents.append(["*.toml", ["rel {version}"]])
         for path, pats in ents:
             if len(pats) > 1 and rng.random() < 0.25:       # the array over several lines, with a blank line in it
                 lines.append('%s = [\n    %s,\n]' % (project.toml_str(path), ",\n\n    ".join(project.toml_str(p) for p in pats)))
@@ -160,6 +165,8 @@ def load_case(job):
             except glue.OutsideGrammar:
                 pass
     selfwant = [glue.cp(p.replace("{version}", A["pattern"])) for p in A["self_extra"]] if A["self_explicit"] else []
+    if A.get("self_glob") and not A["self_explicit"] and not fname.startswith("."):
+        selfwant = [glue.cp("rel " + A["pattern"])]
     return dict(ev="load", A=absA, fmt=fname + "[" + section + "]", loaded=loaded, cfgfile=fname, self=self_asts, selfwant=selfwant, selfraw=[glue.cp(p) for p in selfp], cvline=glue.cp(cvline), show_exit=r.exit, show_out=r.stdout,
                 group=json.dumps(A, sort_keys=True), dbg="%s [%s]: %s" % (fname, section, {k: v for k, v in A.items() if v not in ("absent", [], False)}), text=text)
 
